@@ -596,6 +596,10 @@ class Interp:
                 self._assign(s.target, self.eval(s.value, env), env, s)
         elif isinstance(s, ast.AugAssign):
             cur = self.eval(_load(s.target), env)
+            if isinstance(s.op, ast.BitOr) and isinstance(cur, DictV):
+                # d |= other: d.update(other) on the same object
+                self._call_method(cur, "update", [self.eval(s.value, env)], {}, s)
+                return
             v = self._binop(s.op, cur, self.eval(s.value, env), s)
             self._assign(s.target, v, env, s)
         elif isinstance(s, ast.Return):
@@ -765,6 +769,8 @@ class Interp:
                 it = RangeV([Num(nf.sub(it.args[1].nf, it.args[0].nf))])
         self.log("for_iter", s, iter=it)
         items = None
+        if isinstance(it, ClassV):
+            items = self._enum_members(it, s)
         if isinstance(it, (TupV, SetV)):
             items = it.items
         elif isinstance(it, DictV):
@@ -1566,6 +1572,8 @@ class Interp:
             items = [StrV(k) for k in it.items]
         elif isinstance(it, EnumV) and isinstance(it.inner, TupV) and not it.inner.rowview:
             items = [TupV([const_num(k), x]) for k, x in enumerate(it.inner.items)]
+        elif isinstance(it, ClassV):
+            items = self._enum_members(it, n)
         sub = Env(env, env.module, env.func)
         if items is not None and len(items) <= 24:
             out = []
@@ -2040,6 +2048,19 @@ class Interp:
                 kwargs[kw.arg] = self.eval(kw.value, env)
         return self.call(callee, args, kwargs, n, env)
 
+    def _enum_members(self, cv, node):
+        """the members of an Enum class in definition order (what iterating the class yields), else None"""
+        ci = cv.info
+        if not any(b.split(".")[-1] in ("Enum", "IntEnum", "StrEnum", "Flag", "IntFlag") for b in ci.external_bases()):
+            return None
+        out = []
+        for nm, expr in ci.class_attrs.items():
+            if nm.startswith("_") or nm in ci.methods:
+                continue
+            v = self.eval(expr, Env(None, ci.module, None))
+            out.append(ExtObj(f"{ci.qualname}.{nm}", {}, node, attrs={"value": v, "name": StrV(nm)}))
+        return out
+
     def _all_any_lazily(self, n, env, want_all):
         """all(<generator over a literal sequence>) / any(...): the generator is consumed element by element and left at
         the first element that settles the answer - the elements after it are never evaluated (nor are the tests a
@@ -2397,6 +2418,11 @@ class Interp:
                 return NoneV()
             if meth == "copy":
                 return DictV(dict(recv.items), list(recv.fallback))
+            if meth == "assign" and not args and kwargs and not any(isinstance(v, (FuncV, LambdaV, PartialV)) for v in kwargs.values()):
+                # DataFrame.assign(name=values, ...): a new table with those columns added (or replaced); the receiver is untouched
+                out_ = DictV(dict(recv.items), list(recv.fallback))
+                out_.items.update(kwargs)
+                return out_
             if meth == "get" and args and isinstance(args[0], StrV) and args[0].s in recv.items:
                 return recv.items[args[0].s]
             if not recv.fallback and all(isinstance(k, str) for k in recv.items):
